@@ -2267,6 +2267,16 @@ impl<'store> AnnotationStore {
                         }
                     }
 
+                    // the same item may have been selected in several result rows (e.g. through a nested subquery), it can only be removed once
+                    remove_resources.sort_unstable();
+                    remove_resources.dedup();
+                    remove_datasets.sort_unstable();
+                    remove_datasets.dedup();
+                    remove_keys.sort_unstable();
+                    remove_keys.dedup();
+                    remove_data.sort_unstable();
+                    remove_data.dedup();
+
                     for resource in remove_resources {
                         self.remove(resource)?;
                     }
